@@ -515,6 +515,22 @@ type c03link struct {
 	proxy    net.Listener
 	pattern  atomic.Value // []int
 	stopOnce sync.Once
+	// the same two routers seen from the other side (round 5, `send <tcp|local>/back`): r2 sends to r1
+	// over the connection r1 opened; nil until the first such operation
+	back *c03link
+}
+
+// reverse returns the view of the link in which the accepting router is the sender: its messages
+// travel over the connection the other side opened (Router.Send finds it under the peer's identity).
+func (l *c03link) reverse() *c03link {
+	if l.back != nil {
+		return l.back
+	}
+	b := &c03link{r1: l.r2, r2: l.r1, to: l.r1.ServerIdentity, closed1: make(chan bool, 16), closed2: make(chan bool, 16)}
+	b.pattern.Store([]int{})
+	b.register()
+	l.back = b
+	return b
 }
 
 func (l *c03link) deliveries() int {
@@ -755,8 +771,7 @@ type c03state struct {
 func (st *c03state) tag(s string) { st.tags[s] = true }
 
 func (st *c03state) close() {
-	for _, l := range st.links {
-		l.stop()
+	intact := func(l *c03link) {
 		// a value that was delivered intact must still be intact after the later traffic
 		l.mu.Lock()
 		for i, v := range l.got {
@@ -765,6 +780,13 @@ func (st *c03state) close() {
 			}
 		}
 		l.mu.Unlock()
+	}
+	for _, l := range st.links {
+		l.stop()
+		intact(l)
+		if l.back != nil {
+			intact(l.back)
+		}
 	}
 	st.links = map[string]*c03link{}
 	if st.router != nil {
@@ -1199,9 +1221,12 @@ func (st *c03state) send(tr string, bufs [][]byte) string {
 		return "bad-op"
 	}
 	var pat []int
-	hold := false
+	hold, back := false, false
 	if len(parts) == 2 && parts[0] == "local" && parts[1] == "hold" {
 		hold = true
+	} else if len(parts) == 2 && parts[1] == "back" {
+		// the accepting router of the link answers over the connection the other one opened
+		back = true
 	} else if len(parts) == 2 {
 		var ok bool
 		if pat, ok = c03ints(parts[1]); !ok {
@@ -1218,6 +1243,24 @@ func (st *c03state) send(tr string, bufs [][]byte) string {
 		st.links[parts[0]] = l
 	}
 	l.pattern.Store(pat)
+	if back || l.back != nil {
+		// both directions of one link are in use: the routers' error handlers feed the channels of both
+		// views, so a close noticed during an earlier operation must not be taken for one of this operation
+		for _, x := range []*c03link{l, l.reverse()} {
+			for _, ch := range []chan bool{x.closed1, x.closed2} {
+				for drained := false; !drained; {
+					select {
+					case <-ch:
+					default:
+						drained = true
+					}
+				}
+			}
+		}
+	}
+	if back {
+		l = l.reverse()
+	}
 	var vals []network.Message
 	want := 0
 	stopAt := -1 // first message the property does not promise to deliver
@@ -1862,6 +1905,49 @@ func c03gen(c *h.Ctx, yield func(*h.Case)) {
 		}
 		if len(ops) > 1 {
 			emit(class, ops...)
+		}
+	}
+	// ---- two cooperating sites (round 5): bursts in both directions over one connection, alternating —
+	// the accepting router answers over the connection the other one opened (`send <tr>/back`)
+	for i := 0; i < c.Pick(60, 1200); i++ {
+		tr := "tcp"
+		if r.Intn(3) == 0 {
+			tr = "local"
+		}
+		max := 600 + r.Intn(3000)
+		ops := []string{fmt.Sprintf("c03 cfg %d %s -", max, reg)}
+		steps := 2 + r.Intn(6)
+		backs := 0
+		for j := 0; j < steps; j++ {
+			var bufs [][]byte
+			for k := 1 + r.Intn(4); k > 0; k-- {
+				b, kind := g.valueBuf()
+				if r.Intn(8) == 0 {
+					if nb := c03sized(r, max-r.Intn(3)); nb != nil {
+						b, kind = nb, "near-limit"
+					}
+				}
+				if len(b) > max {
+					continue
+				}
+				c.Count("shape=" + kind)
+				bufs = append(bufs, b)
+			}
+			if len(bufs) == 0 {
+				continue
+			}
+			t := tr
+			if j > 0 && r.Intn(2) == 0 {
+				t += "/back"
+				backs++
+			} else if tr == "tcp" {
+				t += []string{"", "/1", "/1,2,3", "/2"}[r.Intn(4)]
+			}
+			ops = append(ops, fmt.Sprintf("c03 send %s %s", t, c03joinHex(bufs)))
+		}
+		if backs > 0 {
+			c.Count(fmt.Sprintf("duplex-steps=%d", len(ops)-1))
+			emit("send-duplex", ops...)
 		}
 	}
 }
